@@ -14,7 +14,7 @@ import (
 // is dropped (its children are still visited); skip-dir on a directory drops it with its subtree, on
 // a file it drops the file and the rest of its directory.
 func VH_C10_map() {
-	t := symTree10()
+	t := vh_symTree10()
 	res := make([]MapResult, len(t.ents))
 	for i := range res {
 		res[i] = MapResult(v.Choose("map", 3))
@@ -58,10 +58,10 @@ func VH_C10_map() {
 	skipUnder, skipParent, skipParentSet := "", "", false
 	for i, e := range t.ents {
 		visited := true
-		if skipUnder != "" && isUnder(e.path, skipUnder) {
+		if skipUnder != "" && vh_isUnder(e.path, skipUnder) {
 			visited = false
 		}
-		if skipParentSet && (specParent(e.path) == skipParent || (skipParent != "" && isUnder(e.path, skipParent))) {
+		if skipParentSet && (vh_specParent(e.path) == skipParent || (skipParent != "" && vh_isUnder(e.path, skipParent))) {
 			visited = false
 		}
 		want := false
@@ -74,7 +74,7 @@ func VH_C10_map() {
 				if e.isDir {
 					skipUnder = e.path
 				} else {
-					skipParent, skipParentSet = specParent(e.path), true
+					skipParent, skipParentSet = vh_specParent(e.path), true
 				}
 			case MapResultExclude:
 				v.Cover("exclude")
@@ -87,8 +87,8 @@ func VH_C10_map() {
 	}
 }
 
-var mapPatInc = []string{"**/c", "a/b/c", "a/e", "a/d", "**/d", "a/b", "f", "a/e/c"}
-var mapPatExc = []string{"a/b", "**/c", "a/d"}
+var vh_mapPatInc = []string{"**/c", "a/b/c", "a/e", "a/d", "**/d", "a/b", "f", "a/e/c"}
+var vh_mapPatExc = []string{"a/b", "**/c", "a/d"}
 
 // VH_C10_mappat: patterns and a map function together, on the concrete tree
 // a/{b/{c}, d, e/{c}}, f: <=1 include and <=1 exclude pattern (literal and "**/x" templates, so
@@ -102,9 +102,9 @@ var mapPatExc = []string{"a/b", "**/c", "a/d"}
 func VH_C10_mappat() {
 	paths := []string{"a", "a/b", "a/b/c", "a/d", "a/e", "a/e/c", "f"}
 	isDir := map[string]bool{"a": true, "a/b": true, "a/e": true}
-	t := &treeFS{}
+	t := &vh_treeFS{}
 	for _, p := range paths {
-		t.ents = append(t.ents, &treeEnt{path: p, isDir: isDir[p], data: []byte("x")})
+		t.ents = append(t.ents, &vh_treeEnt{path: p, isDir: isDir[p], data: []byte("x")})
 	}
 	res := map[string]MapResult{}
 	for _, p := range paths {
@@ -117,18 +117,18 @@ func VH_C10_mappat() {
 	res[files[v.Choose("map-file-at", len(files))]] = MapResult(v.Choose("map-file", 3))
 
 	var incS, excS []string
-	if i := v.Choose("inc", len(mapPatInc)+1); i > 0 {
-		incS = []string{mapPatInc[i-1]}
+	if i := v.Choose("inc", len(vh_mapPatInc)+1); i > 0 {
+		incS = []string{vh_mapPatInc[i-1]}
 	}
-	if i := v.Choose("exc", len(mapPatExc)+1); i > 0 {
-		excS = []string{mapPatExc[i-1]}
+	if i := v.Choose("exc", len(vh_mapPatExc)+1); i > 0 {
+		excS = []string{vh_mapPatExc[i-1]}
 	}
-	var inc, exc []refPattern
+	var inc, exc []vh_refPattern
 	for _, p := range incS {
-		inc = append(inc, parseRef(p))
+		inc = append(inc, vh_parseRef(p))
 	}
 	for _, p := range excS {
-		exc = append(exc, parseRef(p))
+		exc = append(exc, vh_parseRef(p))
 	}
 	ffs, err := NewFilterFS(t, &FilterOpt{IncludePatterns: incS, ExcludePatterns: excS, Map: func(p string, st *types.Stat) MapResult {
 		return res[p]
@@ -149,7 +149,7 @@ func VH_C10_mappat() {
 	})
 	v.Assert(err == nil, "walk with patterns and a map function succeeds")
 	for i := 1; i < len(order); i++ {
-		v.Assert(specCmp(order[i-1], order[i]) < 0, "entries are reported in walk order")
+		v.Assert(vh_specCmp(order[i-1], order[i]) < 0, "entries are reported in walk order")
 	}
 
 	// soundness clauses
@@ -158,7 +158,7 @@ func VH_C10_mappat() {
 			continue
 		}
 		v.Assert(res[p] == MapResultKeep, "an entry the map function drops is not reported")
-		for a := specParent(p); a != ""; a = specParent(a) {
+		for a := vh_specParent(p); a != ""; a = vh_specParent(a) {
 			if res[a] == MapResultSkipDir {
 				v.Cover("below-skipdir")
 			}
@@ -168,7 +168,7 @@ func VH_C10_mappat() {
 
 	// reference evaluation
 	sel := func(p string) bool {
-		return (len(inc) == 0 || refMatchNaive(inc, p)) && !(len(exc) > 0 && refMatchNaive(exc, p))
+		return (len(inc) == 0 || vh_refMatchNaive(inc, p)) && !(len(exc) > 0 && vh_refMatchNaive(exc, p))
 	}
 	patterns := len(inc) > 0 || len(exc) > 0
 	want := map[string]bool{}
@@ -177,7 +177,7 @@ func VH_C10_mappat() {
 	consultedDir := map[string]bool{}
 	for _, p := range paths {
 		skipped := false
-		for a := specParent(p); ; a = specParent(a) {
+		for a := vh_specParent(p); ; a = vh_specParent(a) {
 			if restSkipped[a] || (a != "" && skippedDir[a]) {
 				skipped = true
 			}
@@ -192,7 +192,7 @@ func VH_C10_mappat() {
 			if isDir[p] {
 				skippedDir[p] = true
 			} else {
-				restSkipped[specParent(p)] = true
+				restSkipped[vh_specParent(p)] = true
 			}
 		}
 		if isDir[p] {
@@ -211,7 +211,7 @@ func VH_C10_mappat() {
 		if patterns {
 			// ancestors not yet reported, outermost first
 			var anc []string
-			for a := specParent(p); a != ""; a = specParent(a) {
+			for a := vh_specParent(p); a != ""; a = vh_specParent(a) {
 				anc = append([]string{a}, anc...)
 			}
 			for _, a := range anc {
